@@ -97,6 +97,7 @@ theorem delete_self_once (l : Lib) (env : Env) (r : Raw) (w : Watch) (hw : alLoo
   unfold Lib.handle
   rw [hw]
   simp only [hk, hm, Bool.false_eq_true, if_false]
+  rw [recurseAfter_events]
   unfold Lib.emit
   simp [hd, hp]
 
